@@ -13,7 +13,9 @@
    of the real buffer shows.  Operand widths follow the source (Index = i32, positions i64);
    loop counters bounded by the buffer length are plain Z.
    Definitions only. *)
-Require Import V.Base.MachineInt V.Generated.GenConsts V.Model.LogBase.
+Require Import V.Base.MachineInt.
+Require Import V.Generated.GenConsts.
+Require Import V.Model.LogBase.
 Open Scope Z_scope.
 
 Definition HL : Z := GenConsts.RB_HEADER_LENGTH.             (* 8 *)
